@@ -137,7 +137,11 @@ type Cmd struct {
 	Txn   *TxnSpec `json:"txn,omitempty"`
 	Seq   []Cmd    `json:"seq,omitempty"`
 	LI    *uint64  `json:"li,omitempty"`
-	Gap   int      `json:"gap,omitempty"` // log indices skipped before this entry (non-command Raft entries)
+	// bulk: a PUT_BATCH of BulkN generated keys "<BulkP>%06d" with values of BulkV bytes each
+	BulkN int    `json:"bulk_n,omitempty"`
+	BulkV int    `json:"bulk_v,omitempty"`
+	BulkP string `json:"bulk_p,omitempty"`
+	Gap   int    `json:"gap,omitempty"` // log indices skipped before this entry (non-command Raft entries)
 }
 
 // Step is one driver step.
@@ -291,6 +295,12 @@ func (c *Cfg) command(s *Cmd) *regattapb.Command {
 		cmd.Type = regattapb.Command_SEQUENCE
 		for i := range s.Seq {
 			cmd.Sequence = append(cmd.Sequence, c.command(&s.Seq[i]))
+		}
+	case "bulk":
+		cmd.Type = regattapb.Command_PUT_BATCH
+		for i := 0; i < s.BulkN; i++ {
+			v := Val{T: uint32(900000 + i), N: s.BulkV}
+			cmd.Batch = append(cmd.Batch, &regattapb.KeyValue{Key: []byte(fmt.Sprintf("%s%06d", s.BulkP, i)), Value: v.Bytes()})
 		}
 	case "dummy":
 		cmd.Type = regattapb.Command_DUMMY
